@@ -13,7 +13,11 @@
 // relative (floating addition is not associative; merged chunks add in another order); merge of
 // chunks == aggregation of the concatenation; a cumulative point == reference over everything
 // recorded so far; a delta point == reference over the interval and the sum of the delta points ==
-// reference over everything.
+// reference over everything.  Diff(a, a+b) is asserted for what its header documents (bucket counts
+// and count of b); its sum is only observed (tag), the property text does not cover Diff.
+// Two-sided where the statement leaves room: a cumulative reader may or may not re-send an
+// unchanged series, a delta reader may omit or send an all-zero point for an empty interval, a
+// point may carry exact min/max although the view disabled them.
 //
 // Domain restrictions (documented preconditions, see driver/propdefs/c07.py assumptions):
 //   values are non-negative and finite (Histogram::Record: "MUST be non-negative");
@@ -717,6 +721,9 @@ void run_agg(vh::Case &c)
       VH_CHECK(c, !pd.record_min_max_ || pd.count_ == 0 ||
                       (same_value<T>(pd.min_, pj.min_) && same_value<T>(pd.max_, pj.max_)),
                "Diff(a, a+b) claims min/max that are not those of b");
+      // observation only (the property text does not cover Diff): HistogramDiff never sets sum_
+      if (pj.count_ > 0 && nostd::get<T>(pj.sum_) != 0 && !same_value<T>(pd.sum_, pj.sum_))
+        c.tag("observed-diff-sum-is-not-the-delta-sum");
     }
     aggs[i] = std::move(m);
     held[i] = std::move(uni);
